@@ -944,6 +944,27 @@ func (ex *Exec) builtin(st *State, name string, args []Value, call ssa.CallInstr
 		return Iface{}
 	case "print", "println":
 		return nil
+	case "min", "max":
+		res := args[0].(*smt.Term)
+		for _, a := range args[1:] {
+			b := a.(*smt.Term)
+			var lt *smt.Term
+			if res.Sort.K == smt.KFP {
+				lt = C.FPCmp(smt.OFLt, b, res)
+			} else {
+				_, signed, _ := intWidth(call.Common().Args[0].Type())
+				if signed {
+					lt = C.BVCmp(smt.OSlt, b, res)
+				} else {
+					lt = C.BVCmp(smt.OUlt, b, res)
+				}
+			}
+			if name == "max" {
+				lt = C.Not(C.Or(lt, C.Eq(b, res)))
+			}
+			res = C.Ite(lt, b, res)
+		}
+		return res
 	}
 	ex.unsupported(st, "builtin "+name)
 	return nil
